@@ -1,5 +1,5 @@
 /-
-C16 helper lemmas, part 8: the one-memory MACHINE (`hstep`) refines the by-value specification
+C16 helper lemmas, part 8: the one-memory MACHINE (`hstep1`) refines the by-value specification
 machine (`step`) step by step, under the invariant that all register headers are well-formed
 and their backing arrays pairwise disjoint — an invariant that every step re-establishes.
 -/
@@ -78,6 +78,7 @@ def Op.target : Op → Option Nat
   | .add r _ | .remove r _ | .grow r _ => some r
   | .clone d _ => some d
   | .diff a _ | .intersect a _ | .merge a _ => some a
+  | .addn r _ _ _ | .removen r _ _ _ => some r
   | _ => none
 
 /-- how a result of the one-memory machine corresponds to a result of the by-value machine:
@@ -94,8 +95,8 @@ def Sim (tgt : Option Nat) (s : HSt) (hr : HRes) (r : Res) : Prop :=
   | _, _ => False
 
 theorem sim_add (grow : Nat → Nat → Nat) (s : HSt) (r n : Nat) (hi : HInv s) :
-    Sim (some r) s (hstep grow s (.add r n)) (step s.abs (.add r n)) := by
-  simp only [hstep, step, abs_regs_get]
+    Sim (some r) s (hstep1 grow s (.add r n)) (step1 s.abs (.add r n)) := by
+  simp only [hstep1, step1, abs_regs_get]
   cases hr : s.regs[r]? with
   | none => simp [Sim]
   | some o =>
@@ -116,8 +117,8 @@ theorem sim_add (grow : Nat → Nat → Nat) (s : HSt) (r n : Nat) (hi : HInv s)
         (simp [Sim, hinv, habs, Bits.toD] <;> exact fun r1 o h1 h2 => hoth r1 o (by simpa using h1) h2)
 
 theorem sim_remove (grow : Nat → Nat → Nat) (s : HSt) (r n : Nat) (hi : HInv s) :
-    Sim (some r) s (hstep grow s (.remove r n)) (step s.abs (.remove r n)) := by
-  simp only [hstep, step, abs_regs_get]
+    Sim (some r) s (hstep1 grow s (.remove r n)) (step1 s.abs (.remove r n)) := by
+  simp only [hstep1, step1, abs_regs_get]
   cases hr : s.regs[r]? with
   | none => simp [Sim]
   | some o =>
@@ -143,8 +144,8 @@ theorem DBits.grow_set (len : Int) (ws : List W) (n : Nat) :
   by_cases h : n >>> 6 ≥ ws.length <;> simp only [h, if_true, if_false]
 
 theorem sim_grow (grow : Nat → Nat → Nat) (s : HSt) (r n : Nat) (hi : HInv s) :
-    Sim (some r) s (hstep grow s (.grow r n)) (step s.abs (.grow r n)) := by
-  simp only [hstep, step, abs_regs_get]
+    Sim (some r) s (hstep1 grow s (.grow r n)) (step1 s.abs (.grow r n)) := by
+  simp only [hstep1, step1, abs_regs_get]
   cases hr : s.regs[r]? with
   | none => simp [Sim]
   | some o =>
@@ -155,8 +156,8 @@ theorem sim_grow (grow : Nat → Nat → Nat) (s : HSt) (r n : Nat) (hi : HInv s
     cases k <;> simp only [HObj.abs, hspec, DBits.grow_set] at habs ⊢ <;> (simp [Sim, hinv, habs] <;> exact fun r1 o h1 h2 => hoth r1 o (by simpa using h1) h2)
 
 theorem sim_clone (grow : Nat → Nat → Nat) (s : HSt) (d src : Nat) (hi : HInv s) :
-    Sim (some d) s (hstep grow s (.clone d src)) (step s.abs (.clone d src)) := by
-  simp only [hstep, step, abs_regs_get]
+    Sim (some d) s (hstep1 grow s (.clone d src)) (step1 s.abs (.clone d src)) := by
+  simp only [hstep1, step1, abs_regs_get]
   cases hd : s.regs[d]? with
   | none => simp [Sim]
   | some od =>
@@ -212,24 +213,24 @@ theorem sim_bulk (s : HSt) (a b : Nat) (hi : HInv s)
         (simp [Sim, hinv, habs] <;> exact fun r1 o h1 h2 => hoth r1 o (by simpa using h1) h2)
 
 theorem sim_diff (grow : Nat → Nat → Nat) (s : HSt) (a b : Nat) (hi : HInv s) :
-    Sim (some a) s (hstep grow s (.diff a b)) (step s.abs (.diff a b)) := by
-  simp only [hstep, step]
+    Sim (some a) s (hstep1 grow s (.diff a b)) (step1 s.abs (.diff a b)) := by
+  simp only [hstep1, step1]
   apply sim_bulk s a b hi _ diffWords Bits.diff Bitmap.diff (fun _ _ => rfl) (fun _ _ => rfl)
   intro H h o hw ho hs
   obtain ⟨H', hl, hv, hf⟩ := hDiff_spec H h o hw ho hs
   exact ⟨H', h, by simp [hl], hv, hf⟩
 
 theorem sim_intersect (grow : Nat → Nat → Nat) (s : HSt) (a b : Nat) (hi : HInv s) :
-    Sim (some a) s (hstep grow s (.intersect a b)) (step s.abs (.intersect a b)) := by
-  simp only [hstep, step]
+    Sim (some a) s (hstep1 grow s (.intersect a b)) (step1 s.abs (.intersect a b)) := by
+  simp only [hstep1, step1]
   apply sim_bulk s a b hi _ intersectWords Bits.intersect Bitmap.intersect (fun _ _ => rfl) (fun _ _ => rfl)
   intro H h o hw ho hs
   obtain ⟨H', hl, hv, hf⟩ := hIntersect_spec H h o hw ho hs
   exact ⟨H', h, by simp [hl], hv, hf⟩
 
 theorem sim_merge (grow : Nat → Nat → Nat) (s : HSt) (a b : Nat) (hi : HInv s) :
-    Sim (some a) s (hstep grow s (.merge a b)) (step s.abs (.merge a b)) := by
-  simp only [hstep, step]
+    Sim (some a) s (hstep1 grow s (.merge a b)) (step1 s.abs (.merge a b)) := by
+  simp only [hstep1, step1]
   exact sim_bulk s a b hi _ mergeWords Bits.merge Bitmap.merge (fun _ _ => rfl) (fun _ _ => rfl)
     (fun H h o hw ho hs => hMerge_spec grow H h o hw ho hs)
 
@@ -264,8 +265,8 @@ theorem abs_words (H : Heap) (o : HObj) : (o.abs H).words = o.hdr.view H := by
   cases k <;> rfl
 
 theorem sim_layout (grow : Nat → Nat → Nat) (s : HSt) (hi : HInv s) :
-    Sim none s (hstep grow s .layout) (step s.abs .layout) := by
-  simp only [hstep, step, Sim, overlap_nil s hi]
+    Sim none s (hstep1 grow s .layout) (step1 s.abs .layout) := by
+  simp only [hstep1, step1, Sim, overlap_nil s hi]
   refine ⟨?_, trivial, hi, fun r o _ h => ⟨h, trivial⟩⟩
   congr 1
   simp only [HSt.abs, List.map_map]
@@ -279,26 +280,26 @@ theorem sim_layout (grow : Nat → Nat → Nat) (s : HSt) (hi : HInv s) :
 
 def Op.isRO : Op → Bool
   | .contains _ _ | .len _ | .blen _ | .cap _ | .iter _ _ | .next _ | .value _ | .iterall _
-  | .range _ _ | .all _ _ => true
+  | .range _ _ | .all _ _ | .str _ => true
   | _ => false
 
 theorem step_ro_regs (S : St) (op : Op) (hro : op.isRO = true) (t : St) (out : String)
-    (h : step S op = .ok t out) : t.regs = S.regs := by
-  cases op <;> simp only [Op.isRO] at hro <;> (try cases hro) <;> simp only [step] at h <;>
+    (h : step1 S op = .ok t out) : t.regs = S.regs := by
+  cases op <;> simp only [Op.isRO] at hro <;> (try cases hro) <;> simp only [step1] at h <;>
     (repeat' split at h) <;> simp only [Res.ok.injEq, reduceCtorEq] at h <;>
     obtain ⟨rfl, _⟩ := h <;> rfl
 
 theorem hstep_ro (grow : Nat → Nat → Nat) (s : HSt) (op : Op) (hro : op.isRO = true) :
-    hstep grow s op = match step s.abs op with
+    hstep1 grow s op = match step1 s.abs op with
       | .bad => .bad
       | .panic => .panic
       | .ok t out => .ok { s with iters := t.iters } out := by
   cases op <;> simp only [Op.isRO] at hro <;> (try cases hro) <;> rfl
 
 theorem sim_ro (grow : Nat → Nat → Nat) (s : HSt) (op : Op) (hro : op.isRO = true) (hi : HInv s) :
-    Sim none s (hstep grow s op) (step s.abs op) := by
+    Sim none s (hstep1 grow s op) (step1 s.abs op) := by
   rw [hstep_ro grow s op hro]
-  cases h : step s.abs op with
+  cases h : step1 s.abs op with
   | bad => simp [Sim]
   | panic => simp [Sim]
   | ok t out =>
@@ -311,8 +312,8 @@ theorem sim_ro (grow : Nat → Nat → Nat) (s : HSt) (op : Op) (hro : op.isRO =
 /-- **Step refinement**: from every state satisfying the invariant, every operation of the
 one-memory machine gives the verdict, the printed line and (through the views) the state of
 the by-value machine, and re-establishes the invariant — for every growth function. -/
-theorem hstep_sim (grow : Nat → Nat → Nat) (s : HSt) (op : Op) (hi : HInv s) :
-    Sim op.target s (hstep grow s op) (step s.abs op) := by
+theorem hstep1_sim (grow : Nat → Nat → Nat) (s : HSt) (op : Op) (hi : HInv s) :
+    Sim op.target s (hstep1 grow s op) (step1 s.abs op) := by
   cases op with
   | add r n => exact sim_add grow s r n hi
   | remove r n => exact sim_remove grow s r n hi
@@ -332,6 +333,54 @@ theorem hstep_sim (grow : Nat → Nat → Nat) (s : HSt) (op : Op) (hi : HInv s)
   | iterall r => exact sim_ro grow s _ rfl hi
   | range r st => exact sim_ro grow s _ rfl hi
   | all r st => exact sim_ro grow s _ rfl hi
+  | addn r a d c => simp [hstep1, step1, Sim]
+  | removen r a d c => simp [hstep1, step1, Sim]
+  | str r => exact sim_ro grow s _ rfl hi
+
+theorem Sim.pre (tgt : Option Nat) (s s1 : HSt) (hr : HRes) (r : Res)
+    (h1 : ∀ (q : Nat) (o : HObj), tgt ≠ some q → s.regs[q]? = some o →
+      s1.regs[q]? = some o ∧ o.hdr.view s1.heap = o.hdr.view s.heap)
+    (h : Sim tgt s1 hr r) : Sim tgt s hr r := by
+  cases hr <;> cases r <;> simp only [Sim] at h ⊢
+  obtain ⟨ho, ha, hi, hoth⟩ := h
+  refine ⟨ho, ha, hi, fun q o hq hs => ?_⟩
+  obtain ⟨a1, a2⟩ := h1 q o hq hs
+  obtain ⟨b1, b2⟩ := hoth q o hq a1
+  exact ⟨b1, b2.trans a2⟩
+
+/-- the element-operation loops `addn` / `removen` refine their by-value twins -/
+theorem sim_loopN (grow : Nat → Nat → Nat) (mk : Nat → Op) (r : Nat) (hmk : ∀ n, (mk n).target = some r) :
+    ∀ (c : Nat) (s : HSt) (n d hits : Nat), HInv s →
+      Sim (some r) s (hloopN grow mk c s n d hits) (loopN mk c s.abs n d hits) := by
+  intro c
+  induction c with
+  | zero => intro s n d hits hi; exact ⟨rfl, rfl, hi, fun q o _ h => ⟨h, rfl⟩⟩
+  | succ c ih =>
+    intro s n d hits hi
+    have hs := hstep1_sim grow s (mk n) hi
+    rw [hmk n] at hs
+    simp only [hloopN, loopN]
+    cases h1 : hstep1 grow s (mk n) <;> cases h2 : step1 s.abs (mk n) <;> rw [h1, h2] at hs <;>
+      simp only [Sim] at hs ⊢
+    obtain ⟨ho, ha, hi', hoth⟩ := hs
+    rw [← ha, ← ho]
+    exact Sim.pre (some r) s _ _ _ hoth (ih _ _ _ _ hi')
+
+/-- **Step refinement** for every operation, including the element-operation loops. -/
+theorem hstep_sim (grow : Nat → Nat → Nat) (s : HSt) (op : Op) (hi : HInv s) :
+    Sim op.target s (hstep grow s op) (step s.abs op) := by
+  cases op with
+  | addn r a d c =>
+    simp only [hstep, step]
+    by_cases hc : c = 0
+    · simp [hc, Sim]
+    · simp only [hc, if_false]; exact sim_loopN grow (.add r) r (fun _ => rfl) c s a d 0 hi
+  | removen r a d c =>
+    simp only [hstep, step]
+    by_cases hc : c = 0
+    · simp [hc, Sim]
+    · simp only [hc, if_false]; exact sim_loopN grow (.remove r) r (fun _ => rfl) c s a d 0 hi
+  | _ => exact hstep1_sim grow s _ hi
 
 theorem dead_eq (grow : Nat → Nat → Nat) (ls : List String) : hrunOps grow none ls = runOps none ls := by
   induction ls with
